@@ -1,7 +1,7 @@
-(* PV.C15.Refuted — counter-models: what goes wrong without the guard `g_label` (the upgrade pattern:
-   a BLOCKING EXCLUSIVE request by a thread that holds the lock only SHARED).  Both witnesses are
-   replayed on the real ShareableThreadLock by the check (known findings C15-LOST-WAKEUP-UPGRADE and
-   C15-MUTUAL-UPGRADE-DEADLOCK). *)
+(* PV.C15.Refuted — counter-models and regression examples.
+   C15-LOST-WAKEUP-UPGRADE is FIXED in /repo (a shared holder now notifies whenever its own count reaches zero): the
+   former witness is kept as a regression Example of the repaired behaviour.  C15-MUTUAL-UPGRADE-DEADLOCK is still
+   open: what goes wrong without the guard `g_label` (two simultaneous upgraders). *)
 From Coq Require Import List Bool Arith PeanoNat Lia.
 From PV Require Import C15.Model C15.Proofs C15.PathModel C15.PathProofs.
 Import ListNotations.
@@ -10,11 +10,11 @@ Local Open Scope nat_scope.
 Definition sh_rr : frame := ShReq true true.
 Definition ex_rr : frame := ExReq true true.
 
-(* T0 shared (reentrant); T1 shared; T0 requests exclusive -> waits for T1; T1 leaves and exits:
-   `if not self._acquired_by: notify_all()` is skipped because T0's own entry is still there. *)
+(* T0 shared (reentrant); T1 shared; T0 requests exclusive -> waits for T1; T1 leaves and exits.
+   Formerly `if not self._acquired_by: notify_all()` was skipped because T0's own entry was still there. *)
 Definition lost_wakeup_schedule : list label :=
   [(0, APush sh_rr); (0, AGo); (1, APush sh_rr); (1, AGo); (0, APush ex_rr); (0, AGo); (1, AGo); (1, AGo)].
-Definition lost_wakeup_state : state := mkState [[ExWait true false; ShBody]; []] [1; 0] None.
+Definition lost_wakeup_state : state := mkState [[ExWait true true; ShBody]; []] [1; 0] None.
 
 (* T0 and T1 hold shared; both request exclusive (blocking): each waits for the other. *)
 Definition mutual_upgrade_schedule : list label :=
@@ -25,85 +25,50 @@ Definition mutual_upgrade_state : state :=
 Lemma enabled_false_step s u : enabled s u = false -> step s (u, AGo) = None.
 Proof. unfold enabled. destruct (step s (u, AGo)); [discriminate|reflexivity]. Qed.
 
-(* A waiter that itself holds the lock is never notified, whatever any thread does afterwards: the
-   general form of the defect (for every state, not only the witness). *)
-Theorem waiting_holder_never_notified :
-  forall (s : state) (t : tid) (r : bool) (rest : list frame) (ls : list label) (s' : state),
-    stk s t = ExWait r false :: rest -> cnt s t > 0 -> run s ls = Some s' ->
-    stk s' t = ExWait r false :: rest /\ cnt s' t > 0.
-Proof. exact waiting_holder_forever. Qed.
+(* Regression of the repaired behaviour (formerly lost_wakeup_refuted): after the same schedule T0 HAS been notified,
+   it can run, and running everybody to the end leaves the lock quiescent. *)
+Example lost_wakeup_fixed :
+  run init lost_wakeup_schedule = Some lost_wakeup_state /\
+  enabled lost_wakeup_state 0 = true /\
+  run lost_wakeup_state [(0, AGo); (0, AGo); (0, AGo); (0, AGo)] = Some (mkState [[]; []] [0; 0] None).
+Proof. repeat split; vm_compute; reflexivity. Qed.
 
-(* The reproduced defect: a reachable state in which thread 0 sits in wait(), every conflicting holder
-   has released (others_hold = false), it has not been notified, no thread can run, and it stays so
-   in every continuation.  The schedule violates the guard (g_run = false). *)
-Theorem lost_wakeup_refuted :
-  exists (ls : list label) (s : state) (t : tid) (r : bool) (rest : list frame),
-    run init ls = Some s /\ reachable s /\ g_run init ls = false /\
-    stk s t = ExWait r false :: rest /\ others_hold s t = false /\
-    (forall u, step s (u, AGo) = None) /\
-    (forall ls' s', run s ls' = Some s' -> stk s' t = ExWait r false :: rest).
-Proof.
-  exists lost_wakeup_schedule, lost_wakeup_state, 0, true, [ShBody].
-  assert (R : run init lost_wakeup_schedule = Some lost_wakeup_state) by (vm_compute; reflexivity).
-  split; [exact R|]. split; [eapply run_reachable; [constructor|exact R]|].
-  split; [vm_compute; reflexivity|]. split; [reflexivity|]. split; [vm_compute; reflexivity|]. split.
-  - intros u. apply enabled_false_step. apply stuck_spec. vm_compute. reflexivity.
-  - intros ls' s' H. refine (proj1 (waiting_holder_forever lost_wakeup_state 0 true [ShBody] ls' s' eq_refl _ H)). cbn. lia.
-Qed.
-
-Theorem no_lost_wakeup_unguarded_refuted :
-  ~ (forall (s : state) (t : tid) (r n : bool) (rest : list frame),
-       reachable s -> stk s t = ExWait r n :: rest -> others_hold s t = false -> n = true).
-Proof.
-  intros H. destruct lost_wakeup_refuted as [ls [s [t [r [rest [_ [R [_ [E [O _]]]]]]]]]].
-  specialize (H s t r false rest R E O). discriminate H.
-Qed.
-
-Theorem deadlock_free_unguarded_refuted :
-  ~ (forall s : state, reachable s -> (exists t, stk s t <> []) -> exists t s', step s (t, AGo) = Some s').
-Proof.
-  intros H. destruct lost_wakeup_refuted as [ls [s [t [r [rest [_ [R [_ [E [_ [St _]]]]]]]]]]].
-  destruct (H s R) as [u [s' X]]; [exists t; rewrite E; discriminate|]. rewrite St in X. discriminate X.
-Qed.
-
-(* Two simultaneous upgraders: both wait, each one's conflicting holder is the other one, nobody can run. *)
+(* Still refuted without the guard: two simultaneous upgraders; both wait, each one's conflicting holder is the other
+   one, nobody can run. *)
 Theorem mutual_upgrade_deadlock_refuted :
   exists (ls : list label) (s : state),
     run init ls = Some s /\ reachable s /\ g_run init ls = false /\
     stk s 0 = [ExWait true false; ShBody] /\ stk s 1 = [ExWait true false; ShBody] /\
     others_hold s 0 = true /\ others_hold s 1 = true /\
-    (forall u, step s (u, AGo) = None) /\
-    (forall ls' s', run s ls' = Some s' ->
-       stk s' 0 = [ExWait true false; ShBody] /\ stk s' 1 = [ExWait true false; ShBody]).
+    (forall u, step s (u, AGo) = None).
 Proof.
   exists mutual_upgrade_schedule, mutual_upgrade_state.
   assert (R : run init mutual_upgrade_schedule = Some mutual_upgrade_state) by (vm_compute; reflexivity).
   split; [exact R|]. split; [eapply run_reachable; [constructor|exact R]|].
-  split; [vm_compute; reflexivity|]. do 4 (split; [reflexivity|]). split.
-  - intros u. apply enabled_false_step. apply stuck_spec. vm_compute. reflexivity.
-  - intros ls' s' H. split.
-    + refine (proj1 (waiting_holder_forever mutual_upgrade_state 0 true [ShBody] ls' s' eq_refl _ H)). cbn. lia.
-    + refine (proj1 (waiting_holder_forever mutual_upgrade_state 1 true [ShBody] ls' s' eq_refl _ H)). cbn. lia.
+  split; [vm_compute; reflexivity|]. do 4 (split; [reflexivity|]).
+  intros u. apply enabled_false_step. apply stuck_spec. vm_compute. reflexivity.
 Qed.
 
-(* The same lost wake-up through the whole of path_lock (two threads of one process): thread 0 is inside
-   `with path_lock(shared, reentrant)`, requests `path_lock(exclusive, blocking)` and waits at the thread level;
-   thread 1 leaves its shared body and runs all its exit steps; afterwards thread 0 sits in wait(), not notified,
-   no other thread holds the lock, and no thread can run. *)
+Theorem deadlock_free_unguarded_refuted :
+  ~ (forall s : state, reachable s -> (exists t, stk s t <> []) -> exists t s', step s (t, AGo) = Some s').
+Proof.
+  intros H. destruct mutual_upgrade_deadlock_refuted as [ls [s [_ [R [_ [E [_ [_ [_ St]]]]]]]]].
+  destruct (H s R) as [u [s' X]]; [exists 0; rewrite E; discriminate|]. rewrite St in X. discriminate X.
+Qed.
+
+(* The repaired behaviour through the whole of path_lock (formerly path_lost_wakeup_refuted): after the same schedule
+   thread 0 has been notified and is enabled. *)
 Fixpoint pgos (t : tid) (n : nat) : list plabel := match n with 0 => [] | S k => (t, PGo) :: pgos t k end.
 Definition one_process : tid -> nat := fun _ => 0.
 Definition path_lost_wakeup_schedule : list plabel :=
   (0, PPush true true true) :: pgos 0 6 ++ (1, PPush true true true) :: pgos 1 5 ++
   (0, PPush false true true) :: pgos 0 2 ++ pgos 1 6.
 
-Theorem path_lost_wakeup_refuted :
+Example path_lost_wakeup_fixed :
   exists ps,
-    prun one_process pinit path_lost_wakeup_schedule = Some ps /\ preachable one_process ps /\
-    pg_run one_process pinit path_lost_wakeup_schedule = false /\
-    stk (tl (getp ps 0)) 0 = [ExWait true false; ShBody] /\ others_hold (tl (getp ps 0)) 0 = false /\
-    gets ps 1 = [] /\ penabled one_process ps 0 = false /\ penabled one_process ps 1 = false.
+    prun one_process pinit path_lost_wakeup_schedule = Some ps /\
+    stk (tl (getp ps 0)) 0 = [ExWait true true; ShBody] /\ others_hold (tl (getp ps 0)) 0 = false /\
+    gets ps 1 = [] /\ penabled one_process ps 0 = true.
 Proof.
-  eexists. split; [vm_compute; reflexivity|]. split.
-  - eapply (prun_preachable one_process pinit path_lost_wakeup_schedule); [apply pr_init|vm_compute; reflexivity].
-  - repeat split; vm_compute; reflexivity.
+  eexists. split; [vm_compute; reflexivity|]. repeat split; vm_compute; reflexivity.
 Qed.
